@@ -552,7 +552,8 @@ func (dp *DataProcessor) applyHavingWithCaseExpression(results []map[string]any)
 	expression, err := expr.NewExpression(exprToUse)
 	if err != nil {
 		dp.stream.log.Error("having filter error (CASE expression): %v", err)
-		return results
+		// A predicate that cannot be evaluated rejects, as in WHERE
+		return nil
 	}
 
 	var filteredResults []map[string]any
@@ -614,7 +615,8 @@ func (dp *DataProcessor) applyHavingWithCondition(results []map[string]any) []ma
 	havingFilter, err := condition.NewExprCondition(processedHaving)
 	if err != nil {
 		dp.stream.log.Error("having filter error: %v", err)
-		return results
+		// A predicate that cannot be evaluated rejects, as in WHERE
+		return nil
 	}
 
 	var filteredResults []map[string]any
